@@ -128,7 +128,7 @@ namespace OP2Utility::Stream
 	protected:
 
 		void ReadImplementation(void* buffer, std::size_t size) override {
-			if (wrappedStream.Position() + size > startingOffset + sliceLength) {
+			if (size > sliceLength - Position()) {
 				throw std::runtime_error(
 					"Stream Read request extends beyond the bounds of the stream slice."
 					+ IdentifySource()
